@@ -6,7 +6,8 @@ open Sdc Sdc.Tls
   `sites pT pS pA cM cS cA ssl` -> scheme/host of every site, accept flag, client/server TLS flags
        (pT,pA,cA ∈ 0|1; pS,cS ∈ own|plain|tls; cM ∈ none|optional|enforced; ssl ∈ T|F|N = `is_ssl_connection`)
   `crun mode ev…` (ev ∈ c1|c0|cx|g<netloc>|s) -> final `is_ssl_connection` and TLS flags of the clients created
-  `verify server ca` -> verify mode -/
+  `verify server ca` -> verify mode
+  `delivery pT scheme async` -> 1 iff a notification to a subscriber with that NotifyTo scheme is sent with TLS -/
 
 def parseBool : String → Option Bool
   | "1" => some true
@@ -78,6 +79,14 @@ def stepLine (u : Unit) (line : String) : Unit × String :=
     | some m, some es =>
       let r := crun (CState.init m) es
       (u, s!"ssl={showSsl r.1.ssl} clients=[{" ".intercalate (r.2.map b01)}]")
+    | _, _ => (u, "bad-op")
+  | ["delivery", pT, scheme, asyncMgr] =>
+    match parseBool pT, parseBool asyncMgr with
+    | some a, some m =>
+      if scheme == "http" || scheme == "https" then
+        let cfg : Cfg := ⟨a, .own, false, .none, .own, false⟩
+        (u, b01 (deliveryTls cfg (if scheme == "https" then .https else .http) m))
+      else (u, "bad-op")
     | _, _ => (u, "bad-op")
   | ["init", mode] => match parseMode mode with
     | some m => (u, showSsl (initSsl m))
